@@ -74,7 +74,7 @@ def run_mix(ctx, rp, rmix, wmix, tag, max_paths=None, extra_random=0):
     consts, rk, wk = mix_constants(rmix, wmix)
 
     def hdr(k, st0):
-        return {"R": rk, "W": wk}
+        return {"R": rk, "W": wk, "form": k % 6}
 
     def pj(st):
         return proj(fix_empty(dict(st)), rk, wk)
@@ -213,6 +213,11 @@ def proj_fine(st, rk, wk):
     }
 
 
+def API_FORMS(rmix, wmix):
+    """the mix contains a kind that is reached through more than one public entry point"""
+    return any(k in ("val", "exc", "drop") for k in rmix) or "cb" in wmix
+
+
 def run_mix_fine(ctx, rp, rmix, wmix, tag, max_paths=None):
     consts, rk, wk = mix_constants(rmix, wmix)
     must = ["SwapReady", "LSwap"]
@@ -220,6 +225,7 @@ def run_mix_fine(ctx, rp, rmix, wmix, tag, max_paths=None):
         must += ["SubCAS"]
     res, g = graph_replay(ctx, "Future", "FutureFine", "FutureFine_base.cfg", tag, rp,
                           lambda st: proj_fine(st, rk, wk), header_fn=lambda k, st0: {"R": rk, "W": wk, "fine": True},
+                          variants=[{"form": f} for f in range(6)] if API_FORMS(rmix, wmix) else None,
                           constants=consts, must_take=must, max_paths=max_paths, tlc_kw={"workers": 4})
     return res
 
